@@ -373,6 +373,11 @@ def run_check(pid, tier, seed, replay=None):
             f = r.get('finding')
             if f:
                 known_hit[f] = known_hit.get(f, 0) + 1
+                if os.environ.get('VERIF_SAVE_KNOWN'):
+                    cp = os.path.join(VERIF, 'corpus', pid, '%s.json' % f.lower().replace('-', ''))
+                    if not os.path.exists(cp):
+                        os.makedirs(os.path.dirname(cp), exist_ok=True)
+                        json.dump({'cfg': r['cfg'], 'note': 'hits known finding %s' % f}, open(cp, 'w'))
             else:
                 violations.append({'kind': 'rejected' if v[0] != 'A' else 'exception', 'cfg': r['cfg'], 'verdict': v, 'exc': r.get('exc'),
                                    'detail': r.get('detail'),
